@@ -665,6 +665,31 @@ fn conv_step(t: &[&str]) -> Option<String> {
             let d = format!("{}", hash);
             Some(format!("{} {}", a, if a == d { "same" } else { "differ" }))
         }
+        ["fmt", spec, h] => {
+            // Display under formatter flags (width, fill, alignment, precision, sign, alternate): the text must still be the 64 digits
+            let b: [u8; 32] = unhex(h)?.try_into().ok()?;
+            let hash = blake3::Hash::from_bytes(b);
+            Some(match *spec {
+                "plain" => format!("{}", hash),
+                "prec8" => format!("{:.8}", hash),
+                "prec0" => format!("{:.0}", hash),
+                "prec64" => format!("{:.64}", hash),
+                "prec100" => format!("{:.100}", hash),
+                "w80" => format!("{:80}", hash),
+                "w70r" => format!("{:>70}", hash),
+                "w70l" => format!("{:<70}", hash),
+                "w66c" => format!("{:^66}", hash),
+                "w70fill" => format!("{:*<70}", hash),
+                "w08" => format!("{:08}", hash),
+                "w100zero" => format!("{:0100}", hash),
+                "alt" => format!("{:#}", hash),
+                "plus" => format!("{:+}", hash),
+                "argw" => format!("{:1$}", hash, 90),
+                "argp" => format!("{:.*}", 5, hash),
+                "tostring" => hash.to_string(),
+                _ => return None,
+            })
+        }
         ["fromhex", s] => {
             // s is the hex encoding of the *input bytes* given to from_hex
             let inp = unhex(s)?;
